@@ -99,7 +99,7 @@ impl<'a> PairFn for Corrupt<'a> {
             for step in 0..st.spec.n {
                 for d in 0..3u8 {
                     n_cases += 1;
-                    let (po, verdict) = prove_with::<B, H, Coin<H>>(st, &cols, &pubs, Some(AuxCorruption { col, step, delta: d }));
+                    let (po, verdict) = prove_with::<B, H, Coin<H>>(st, &cols, &pubs, Some(AuxCorruption { col, step, delta: d, custom: None }));
                     let verdict = verdict.unwrap_or(Ok(()));
                     judge::<B, H>(out, &pubs, verdict, po, || ctxj("aux", col, step, d));
                 }
@@ -122,9 +122,26 @@ impl<'a> PairFn for Corrupt<'a> {
         for col in 0..st.spec.sum_cols() {
             for d in 0..3u8 {
                 n_cases += 1;
-                let (po, verdict) = prove_with::<B, H, Coin<H>>(st, &cols, &pubs, Some(AuxCorruption { col, step: usize::MAX, delta: d }));
+                let (po, verdict) = prove_with::<B, H, Coin<H>>(st, &cols, &pubs, Some(AuxCorruption { col, step: usize::MAX, delta: d, custom: None }));
                 let verdict = verdict.unwrap_or(Ok(()));
                 judge::<B, H>(out, &pubs, verdict, po, || ctxj("aux (whole column shifted)", col, 0, d));
+            }
+        }
+        // ---- another valid execution with a compensating auxiliary shift: the first column restarted from its asserted
+        // initial value + d (all of its transitions hold), the first auxiliary column shifted as a whole by -d (all
+        // of its transitions hold): only the two boundary assertions on the first step are violated, by opposite
+        // amounts - they cancel if the two constraints are combined with the same coefficient
+        if st.spec.sum_cols() >= 1 && st.spec.asserts.iter().any(|a| a.col == 0 && a.kind == starkit::AKind::Single(0)) {
+            for d in [1u128, p - 1, 12345] {
+                let mut c2 = cols.clone();
+                c2[0][0] = kit::refmath::addm(c2[0][0], d, p);
+                if !starkit::prover::regenerate_column::<B>(&st.spec, &mut c2, 0, 0) {
+                    break;
+                }
+                let verdict = main_valid::<B>(&st.spec, &c2, &vals);
+                n_cases += 1;
+                let (po, _) = prove_with::<B, H, Coin<H>>(st, &c2, &pubs, Some(AuxCorruption { col: 0, step: usize::MAX, delta: 0, custom: Some(p - d) }));
+                judge::<B, H>(out, &pubs, verdict, po, || ctxj("main restarted from another initial value, auxiliary column shifted by the opposite amount", 0, 0, 0));
             }
         }
         // ---- statement perturbations of the accepted honest proof
